@@ -7,6 +7,7 @@ import (
 	"flag"
 	"fmt"
 	"os"
+	"runtime"
 	"sort"
 	"strings"
 	"time"
@@ -117,6 +118,27 @@ func writeJSON(path string, v any) {
 	}
 }
 
+// watchdog: a task that never reaches a scheduling point (a loop without any
+// synchronisation operation, a block on a primitive the simulator does not own)
+// would hang the worker for ever. No scheduler step for 60 s of wall-clock time:
+// dump all stacks and exit 3 (the driver reports it as infrastructure trouble).
+func watchdog() {
+	last, since := simrt.Heartbeat.Load(), time.Now()
+	for {
+		time.Sleep(2 * time.Second)
+		if h := simrt.Heartbeat.Load(); h != last {
+			last, since = h, time.Now()
+			continue
+		}
+		if time.Since(since) > 60*time.Second {
+			buf := make([]byte, 1<<20)
+			n := runtime.Stack(buf, true)
+			fmt.Fprintf(os.Stderr, "WATCHDOG: no scheduling step for %v: a task is looping or blocked outside the simulator\n%s\n", time.Since(since).Round(time.Second), buf[:n])
+			os.Exit(3)
+		}
+	}
+}
+
 func main() {
 	scn := flag.String("scenario", "", "scenario name")
 	seed0 := flag.Uint64("seed0", 1, "base seed")
@@ -148,6 +170,7 @@ func main() {
 	if *raceLog != "" {
 		raceScan = newRaceScanner(*raceLog, *libPrefix)
 	}
+	go watchdog()
 	if *replay != "" {
 		doReplay(*replay, *out)
 		return
